@@ -13,18 +13,19 @@ def parseOutcome (s : String) : R Outcome :=
   | "comm" => pure .comm | "exc" => pure .exc
   | _ => throw s!"bad outcome {s}"
 
-/-- `"d"` = doPoll, `"i"` = initialReads, `"w"` = writeInitParams (in the start-up round or behind it), a number = `read_<p>` -/
+/-- `"d"` = doPoll, `"i"` = initialReads, `["w", p]` = `write_<p>` called by writeInitParams (in the start-up round or
+behind it), a number = `read_<p>` -/
 def parseFn (j : Json) : R Fn :=
   match j with
   | .str "d" => pure .doPoll
   | .str "i" => pure .init
-  | .str "w" => pure .write
+  | .arr #[.str "w", p] => do return .write (← p.getNat?)
   | _ => do return .read (← j.getNat?)
 
 def fnJson : Fn → Json
   | .doPoll => Json.str "d"
   | .init => Json.str "i"
-  | .write => Json.str "w"
+  | .write p => jarr [Json.str "w", jnat p]
   | .read p => jnat p
 
 def parseExt (j : Json) : R Ext := do
@@ -107,7 +108,9 @@ def parseDecl (j : Json) : R PollFlags.Decl := do
     return ⟨kind, ← i.getBool?, ← o.getBool?⟩
   | _ => throw s!"bad decl {j.compress}"
 
-def parseMod (j : Json) : R (Mod × List (Nat × Nat)) := do
+def pendingOf (ms : List (List Nat)) : Nat → List Nat := fun m => ms[m]?.getD []
+
+def parseMod (j : Json) : R (Mod × List (Nat × Nat) × List Nat) := do
   let iv ← fldNat j "interval"
   let stamps ← (← fldArr j "stamps").mapM (fun x => do
     match (← arr x) with
@@ -118,7 +121,8 @@ def parseMod (j : Json) : R (Mod × List (Nat × Nat)) := do
   let decls ← (← fldArr j "decls").mapM parseDecl
   let pi ← fldNat j "pollinterval"
   if iv ≠ pi then throw "a thread starts with PollInfo.interval = pollinterval"
-  return (startMod en (← fldNat j "slow") (if en then PollFlags.polledIdx 0 decls else []) pi, stamps)
+  -- `pending`: the parameters in the module's `writeDict` when the thread starts (positions in the parameter list)
+  return (startMod en (← fldNat j "slow") (if en then PollFlags.polledIdx 0 decls else []) pi, stamps, ← fldNats j "pending")
 
 /-- the parameters the poller may read are computed by the specification (`mayPoll`) from how the class declares
 its read functions; a module with polling disabled has none -/
@@ -174,7 +178,8 @@ def handle (j : Json) : R Json := do
     let wakes ← (← fldArr j "waits").mapM parseWake
     let gaps ← (← fldArr j "gaps").mapM (fun g => do (← arr g).mapM parseExt)
     let env := mkEnv advs.toArray calls.toArray wakes.toArray gaps.toArray
-    let σ0 : PollState := startState (← fldNat j "clock") (ms.map (·.1)) (initStamp (ms.map (·.2)))
+    let σ0 : PollState := startState (← fldNat j "clock") (ms.map (·.1)) (initStamp (ms.map (·.2.1)))
+      (pendingOf (ms.map (·.2.2)))
     let p := prologue consts env σ0
     let (σ, evs, dbg) := loopTurns env advs.length (advs.length + 1) p.σ p.evs.toArray #[]
     let wantDbg := (j.getObjVal? "debug").toOption.isSome
